@@ -149,7 +149,7 @@ MWORDS = ["NAME", "ROWS", "COLUMNS", "RHS", "RANGES", "BOUNDS", "ENDATA", "OBJSE
           "x", "y1", "rhs", "bnd", "MARKER", "'MARKER'", "'INTORG'", "'INTEND'", "$", "$comment", "a$b", "*", "*x", "inf", "-inf", "+INF", "Infinity", "-INFINITY", "infx",
           "-infinity2", "+", "-", "\xe9", "z" * 50]
 MSEP = [" ", " ", "  ", "\t", "    ", "\r", "\x0c", "\x0b", "\n", "\n", "\n ", "\n    ", "\n*comment\n", "\n\n", " $ rest is comment\n", "\x00", " \n", "\r\n"]
-MOPS = [("nl", 16), ("nf", 30), ("coef", 16), ("bound", 14), ("isnum", 8), ("eol", 10), ("seteol", 4)]
+MOPS = [("nl", 16), ("nf", 30), ("coef", 16), ("bound", 14), ("isnum", 8), ("eol", 10), ("seteol", 4), ("sec 0", 3), ("sec 1", 4)]
 
 
 def gen_mps_text(rng):
@@ -175,12 +175,12 @@ def gen_mps_text(rng):
 MLINES = [" x obj 1 r1 2\n", " x  r1  -3/4   r2  1e2  $ comment\n", "    rhs       r1   1.5   r2  -2/3\n", " UP bnd x 4\n", " MI bnd y\n", " LO bnd z -inf\n", " UP bnd w +INFINITY  $ c\n",
           " FX bnd v 1/3 extra\n", " N obj\n", " G r1\n", "NAME prob\n", "ROWS\n", "COLUMNS\n", "RHS\n", "BOUNDS\n", "ENDATA\n", "* comment\n", "\n", " M1 'MARKER' 'INTORG'\n", " rng r1 2.5\n",
           " UP bnd infx 2\n", " UP bnd x infinity\n", " x obj 1 $ r1 2\n", "RANGES", " rhs2 r1 1"]
-MPARSER = [["nl", "nf", "nf", "coef", "nf", "coef", "eol"], ["nl", "nf", "nf", "bound", "eol"], ["nl", "isnum 726873", "nf", "coef", "nf", "coef", "eol"], ["nl", "nf", "eol"], ["nl", "nl"],
+MPARSER = [["sec 1", "nl", "nf", "coef", "nf", "coef", "eol"], ["sec 1", "nl", "nf", "coef", "nf", "eol"], ["sec 0", "nl", "nf", "nf", "bound", "eol"], ["nl", "nf", "nf", "coef", "nf", "coef", "eol"], ["nl", "nf", "nf", "bound", "eol"], ["nl", "isnum 726873", "nf", "coef", "nf", "coef", "eol"], ["nl", "nf", "eol"], ["nl", "nl"],
            ["nl", "nf", "nf", "coef", "eol", "nl", "nf", "bound"], ["nl", "seteol", "eol"]]
 
 
 def gen_mps_ops(rng, nops):
-    ops = ["nl"]
+    ops = [rng.choice(["sec 0", "sec 1"]), "nl"]
     while len(ops) < nops:
         if rng.chance(0.5):
             for o in rng.choice(MPARSER):
@@ -204,7 +204,7 @@ def run_mps(ev, rep, rng, exe, model, quick):
         sessions.append((gen_mps_text(r), gen_mps_ops(r, r.rint(3, 30 if quick else 80))))
     sessions += [("ROWS\n N obj\n G R1\n G r2", ["nl", "nl", "nf", "nl", "nf", "nf", "nl", "nf", "nf", "eol", "nl"]),
                  (" UP bnd x -inf\n UP bnd y +infinity $ c\n MI bnd z infx\n", ["nl", "nf", "nf", "bound", "eol", "nl", "nf", "nf", "bound", "eol", "nl", "nf", "nf", "bound", "nf"]),
-                 (" rhs2 r1 5", ["nl", "seteol", "eol", "nl"]), ("\x0b\nROWS\n", ["nl", "nl"]), ("RHS\n    rhs       r1   1.5   r2  -2/3\n", ["nl", "nl", "isnum " + hx("rhs"), "nf", "coef", "nf", "coef", "eol"])]
+                 (" rhs2 r1 5", ["nl", "seteol", "eol", "nl"]), (" x r2 1 $ second pair omitted\n y obj 1 $ c\n", ["sec 1", "nl", "nf", "coef", "nf", "eol", "nl", "nf", "coef", "eol", "sec 0", "nf"]), ("\x0b\nROWS\n", ["nl", "nl"]), ("RHS\n    rhs       r1   1.5   r2  -2/3\n", ["nl", "nl", "isnum " + hx("rhs"), "nf", "coef", "nf", "coef", "eol"])]
     ks = [model.ask("mpslex %s %d %s" % (hx(t), len(o), " ".join(o))) for t, o in sessions]
     with ThreadPoolExecutor(build.NCPU) as ex:
         trs = list(ex.map(lambda s: proto.run_harness(exe, ["mxnew " + hx(s[0])] + ["mx" + o for o in s[1]] + ["mxfree"], timeout=300), sessions))
